@@ -604,6 +604,13 @@ pub fn core_structures(cfg: &CfgSpec) -> Vec<Structure> {
         vec![ps(1, PDenom::Native, PRecv::Staker, AckFailure), ps(2, PDenom::Lst, PRecv::Staker, TimedOut), ps(3, PDenom::Lst, PRecv::N1, AckFailure)],
         true,
     );
+    // S8: as S7 with the LST transfer first in sequence order
+    add(
+        "mixedstaker2",
+        vec![bs(St::Pending, &[0], 0, 1)],
+        vec![ps(1, PDenom::Lst, PRecv::Staker, TimedOut), ps(2, PDenom::Native, PRecv::Staker, AckFailure), ps(4, PDenom::Native, PRecv::Staker, Sent)],
+        true,
+    );
     v
 }
 
